@@ -38,7 +38,17 @@ def operand_value(f, op, st):
     return place_value(f, p, st)
 
 
+def _self_field(p):
+    """name of the field if the place is (*_1).<field>, else None"""
+    if p["l"] == 1 and len(p["p"]) == 2 and p["p"][0]["k"] == "deref" and p["p"][1]["k"] == "field":
+        return p["p"][1]["n"]
+    return None
+
+
 def place_value(f, p, st):
+    fld = _self_field(p)
+    if fld is not None and ("field", fld) in st:
+        return st[("field", fld)]
     v = st.get(p["l"], ("in", p["l"]))
     for e in p["p"]:
         if e["k"] == "field" and v[0] == "ovf" and e["i"] == 0:
@@ -252,6 +262,9 @@ class SymRec(e7.Recogniser):
     def stmt(self, s, st):
         if s["k"] == "assign" and not s["lhs"]["p"]:
             st[s["lhs"]["l"]] = rvalue_value(self.f, s["rv"], st, self.f.locals[s["lhs"]["l"]]["ty"])
+        elif s["k"] == "assign" and _self_field(s["lhs"]) is not None:
+            # a store into a field of self: later reads of the field on this path see the stored value
+            st[("field", _self_field(s["lhs"]))] = rvalue_value(self.f, s["rv"], st, s["lhs"]["p"][1].get("ty"))
         return None
 
     def call(self, bi, t, ck, st):
